@@ -53,6 +53,7 @@ func checkC14(c *Ctx) {
 	c.Trusted = []string{"go/ssa", "E-abs", "the decoder's class-level behaviour (C04/C06)"}
 	c.Rule("C14.1", "plumbing: for each of the 8 option combinations the ListenConfig passed to the port has TimeCode/ActiveSense/SysEx exactly as chosen, the chosen buffer size and error handler; the decoder constructor copies sysex handling, buffer size and callbacks", 9)
 	c.Rule("C14.2", "the filter is a pure projection: drops exactly its class, forwards once with unchanged message and time stamp, writes nothing", 2)
+	c.Rule("C14.3", "the sysex option does not steer the decoder: with the option off as with it on, every (receiver state, input class) transition of the live decoder equals the receiver model — only sysex deliveries differ", 20)
 	c.Rule("C14.4", "siblings agree: every driver's filter closure has the same decision table", 1)
 
 	mp := p.Pkg("")
@@ -194,6 +195,7 @@ func checkC14(c *Ctx) {
 		}
 		c.Check(ok, "C14.1", "decoder constructor copies the config", p.Pos(nr.Pos()), "sysex handling, buffer size, callbacks copied from the config", why)
 	}
+	liveSimulation(c, "C14.3", "", "", true)
 	// ---- filter closures
 	fcs := filterClosures(p)
 	if len(fcs) < 2 {
